@@ -26,6 +26,10 @@ func runC13(c *Ctx) {
 	c.Rule("C13-D2", "every *websocket.Conn obtained from Accept/Dial gets SetReadLimit on every path before it is read (the library default is 32768 bytes): the configured limit when positive, -1 (unlimited) otherwise", 4)
 	websocketReadLimit(c, "C13-D2")
 
+	c.Rule("C13-D4", "a failed read of the POST body is fatal: in DecodePayloads, once io.ReadAll returned an error nothing is split or decoded — the limit of http.MaxBytesReader (the only guard for a chunked body "+
+		"without Content-Length) surfaces as exactly that error, so 'decode what arrived' accepts a truncated over-limit body", 1)
+	payloadReadErrorFatal(c, "C13-D4")
+
 	c.Rule("C13-D3", "batcher shape: after a split the scan restarts at index 0 of the remaining slice (induction variable reset to -1 before the post-increment), the prefix sent and the suffix kept are cut at the same index, the remainder is sent, and sizes are compared with the announced maxPayload", 5)
 	batcherShape(c, "C13-D3")
 
@@ -193,6 +197,32 @@ func websocketReadLimit(c *Ctx, rule string) {
 	}
 }
 
+// payloadReadErrorFatal (C13-D4): an error of reading the POST body is never ignored.
+func payloadReadErrorFatal(c *Ctx, rule string) {
+	p := c.P
+	fn := p.Fn("eioparser", "DecodePayloads")
+	reads := CallsTo(Calls(fn), `io\.ReadAll|\(io\.Reader\)\.Read|io\.ReadFull`)
+	if len(reads) == 0 {
+		c.Undecided("%s: no read of the body found in DecodePayloads", rule)
+		return
+	}
+	for _, rd := range reads {
+		call, ok := rd.Instr.(*ssa.Call)
+		if !ok {
+			continue
+		}
+		errV := extractOf(call, 1)
+		if errV == nil {
+			c.Ob(rule, "eioparser.DecodePayloads/read-error-fatal", rd.Pos(), false, "the error of "+rd.Name+" is not looked at")
+			continue
+		}
+		as := nonNilAssumes(fn, errV)
+		// with the read having failed, nothing is decoded and no packets are returned
+		r, trail := PrunedCanReach(fn, rd.Instr, as, callPred(`eioparser\.decode|eioparser\.splitByte`), nil)
+		c.Ob(rule, "eioparser.DecodePayloads/read-error-fatal", rd.Pos(), !r && len(as) > 0, "after a failed read of the body (http.MaxBytesReader reports the exceeded limit exactly there) the bytes read so far are still decoded: the over-limit body is truncated and accepted instead of being refused with 413: "+trailString(p, trail))
+	}
+}
+
 func batcherShape(c *Ctx, rule string) {
 	p := c.P
 	fn := p.Fn("eio", "clientSocket.writeWritablePackets")
@@ -284,6 +314,39 @@ func batcherShape(c *Ctx, rule string) {
 		}
 	}
 	c.Ob(rule, name+"/size-test", fn.Pos(), cmp >= 1, "the batcher never compares the accumulated size with s.maxPayload")
+	// every other comparison with maxPayload (in the batcher, its closures and private helpers) measures encoded sizes
+	// too, or only tests whether a limit is configured — a cheaper estimate (len(Data)) ignores the base64 growth of
+	// binary packets on polling and lets an over-limit batch through
+	for _, f := range append(WithAnons(fn), transparentCalleesOf(fn)...) {
+		for _, b := range f.Blocks {
+			for _, in := range b.Instrs {
+				bo, ok := in.(*ssa.BinOp)
+				if !ok {
+					continue
+				}
+				switch bo.Op {
+				case token.GTR, token.GEQ, token.LSS, token.LEQ, token.EQL, token.NEQ:
+				default:
+					continue
+				}
+				tx, ty := Term(bo.X), Term(bo.Y)
+				var other string
+				switch {
+				case strings.HasSuffix(tx, ".maxPayload"):
+					other = ty
+				case strings.HasSuffix(ty, ".maxPayload"):
+					other = tx
+				default:
+					continue
+				}
+				if strings.Contains(other, "payloadSize") && f == fn {
+					continue // the size test above
+				}
+				okO := other == "0" || strings.HasPrefix(other, "0:") || strings.Contains(other, "EncodedLen(false)")
+				c.Ob(rule, name+"/maxPayload-compared-with-encoded-sizes", bo.Pos(), okO, "maxPayload is compared with "+trunc(other, 80)+", which is not a sum of EncodedLen(false) (nor the 'is a limit configured' test): a batch this test lets through can exceed the limit once binary packets are base64-encoded")
+			}
+		}
+	}
 	// sizes come from EncodedLen(false) (polling never supports binary) plus one separator per packet
 	enc := CallsTo(Calls(fn), `\(\*eioparser\.Packet\)\.EncodedLen`)
 	okEnc := len(enc) >= 1
